@@ -446,7 +446,6 @@ def handleSetRange (_c : Ctx) (cmd : List Bytes) : Prog Res :=
         else if offset < 0 then
           let r := newStr ++ str
           setOrErr [(key, .str r)] (.ret (.ok (intReply r.length)))
-        else if !isAscii str || !isAscii newStr then .unmod "SETRANGE on non-ASCII (rune conversion)"
         else
           let o := offset.toNat
           let r := str.take o ++ newStr ++ str.drop (o + newStr.length)
